@@ -325,13 +325,30 @@ static std::string runCase(const std::vector<std::vector<ColSpec>>& ops, const s
 	Runner<L, keep> r; return r.run(ops, extras, universe);
 }
 
+template<size_t L> static void vert(ull code, ull cp)
+{
+	auto p = DataColumnTraits<DataStructDefault<>, L>::GetVertices(uint64_t(code), size_t(cp));
+	printf("%llu %llu\n", ull(p.first), ull(p.second));
+}
+static void unitVertices(ull L, ull code, ull cp)
+{
+	switch (L) {
+	case 4: vert<4>(code, cp); break; case 5: vert<5>(code, cp); break; case 6: vert<6>(code, cp); break; case 7: vert<7>(code, cp); break;
+	case 8: vert<8>(code, cp); break; case 9: vert<9>(code, cp); break; case 10: vert<10>(code, cp); break; case 11: vert<11>(code, cp); break;
+	case 12: vert<12>(code, cp); break; case 13: vert<13>(code, cp); break; case 14: vert<14>(code, cp); break; case 15: vert<15>(code, cp); break;
+	default: puts("?"); }
+}
+
 int main()
 {
 	std::string line;
 	while (std::getline(std::cin, line))
 	{
 		std::istringstream is(line);
-		ull L, keep; is >> L >> keep;
+		std::string first; is >> first;
+		if (first == "v") { ull L, code, cp; is >> L >> code >> cp; unitVertices(L, code, cp); continue; }
+		if (first == "c") { ull v, m; is >> v >> m; printf("%llu\n", ull(internal::UIntMath<>::Ceil(size_t(v), size_t(m)))); continue; }
+		ull L = std::strtoull(first.c_str(), nullptr, 10), keep; is >> keep;
 		std::vector<std::vector<ColSpec>> ops; std::vector<ColSpec> extras; std::vector<ull> universe, probes;
 		std::string tok; bool bad = false;
 		auto readCol = [&] (ColSpec& c) { is >> c.t >> c.size >> c.align >> c.code; };
